@@ -12,6 +12,10 @@ CHECKS = {
          "All 1-D geometries up to the bound x 11 filters (incl. custom kernels that force u8 precision 13) x both orientations x 13 types, line counts 1..13/1..70 and long kernels: the portable result must equal clip((2^(p-1)+Σk·x)>>p) bit for bit and SSE4.1/AVX2 must equal the portable result (ints byte-identical, 16-bit alpha ±1, floats 1 ulp per pass); 2-D shapes x algorithms x alpha on/off; alpha multiply/divide at every row width. Every reachable u8 precision 13..21 is hit (recorded in the evidence).",
          "Custom-kernel geometries whose normalised window has Σ|w| >= 4 are outside the documented head-room and skipped; float alpha-aware cases use alpha in [0.5,1] (the division is ill-conditioned otherwise).",
          "DESIGN.md §4 C02"),
+ "C03": ("three cooperating bounded-exhaustive explorations on both build profiles: invariants on the implementation's coefficient tables for every geometry and kernel (incl. replays that bind the static-table read to the code), an API sweep in isolated child processes with guard pages behind every image buffer and heap block, and every Resizer history up to a depth with fenced misaligned scratch buffers",
+         "Model: every geometry of the model space x 7 built-in + 14 custom kernels: window bounds (all unchecked reads stay in the row), clip-table index range for ALL contents (replayed on the real kernels when the unclamped index would leave the table), accumulator ranges, SIMD precision dispatch under the head-room premise. Sweep: sizes (0..S)^4 x 30 algorithms (wild kernels, SuperSampling multiplicity 0..255) x valid+invalid crop alphabets x rotating pixel types/back-ends/containers, alpha/mapper/conversion operations, and the public view methods with arbitrary arguments (negative, NaN, inf, near u32::MAX); each case in a child process whose death by signal is attributed to the case. Histories: every call sequence of the C09 alphabet to depth 2/3. Verdict: Ok or documented Err; no signal, abort or panic (panics allowed only outside the head-room).",
+         "S = 3 / 6; pixel types, back-ends and containers rotate over the cases rather than forming a full product; heap fencing covers blocks with alignment <= 8; a NaN-valued kernel is outside the statement.",
+         "DESIGN.md §4 C03"),
  "C04": ("bounded-exhaustive enumeration of u32 rectangles / f64 crop boxes / buffer lengths and alignments over every constructor, on both build profiles, exact-arithmetic oracle",
          "Every (left,top,width,height) from an alphabet that includes 2^31±1 and the values next to u32::MAX is given to all six cropped-view constructors on every image size up to 6x6; every crop box over a valid+invalid f64 alphabet (NaN, ±inf, negative, -0, denormal) goes through Resizer::resize in isolated child processes; nine buffer constructors x 13 pixel types x overflow sizes x lengths x alignments. Accept/reject is compared with exact u64/u128/TwoSum arithmetic and accepted views are read back against the rectangle model; both the optimised and the debug-assertion build are judged.",
          "Zero-area boxes and f64 boxes that exceed the image by less than the rounding of left+width are don't-care; image sizes are bounded by 7.",
